@@ -192,6 +192,53 @@ def check_sparse(ctx, n_cases):
         except Exception as ex:
             ctx.fail(["sparse", "raises", errname(ex)], "sparse pipeline raised %s: %s on %s" % (errname(ex), str(ex)[:100], case), case)
 
+def check_lazy_sparse(ctx, n_cases):
+    """lazy sparse rows as the ARFF reader builds them (float / string / nominal-lookup encoders, '?' cells): access by name, items, keys, len, equality and label agree"""
+    from coba.pipes.readers import ArffReader
+    import coba.pipes.rows as R
+    rng = ctx.rng
+    for _ in range(n_cases):
+        kinds = [rng.choice(["numeric", "nominal", "nominal", "string"]) for _ in range(rng.randrange(2, 5))]
+        names = ["c%d" % i for i in range(len(kinds))]
+        levels = {nm: ["x", "y", "z"][:rng.randrange(1, 4)] for nm, k in zip(names, kinds) if k == "nominal"}
+        header = ["@relation r"] + ["@attribute %s %s" % (nm, "numeric" if k == "numeric" else "string" if k == "string" else "{" + ",".join(levels[nm]) + "}") for nm, k in zip(names, kinds)] + ["@data"]
+        rows, exp = [], []
+        for _ in range(rng.randrange(1, 4)):
+            cells, e = [], {}
+            for i, (nm, k) in enumerate(zip(names, kinds)):
+                u = rng.random()
+                if u < 0.25:      # absent: a numeric zero (not listed), the level / string "0"
+                    if k != "numeric": e[nm] = "0"
+                    continue
+                if u < 0.5: cells.append("%d ?" % i); e[nm] = None; continue
+                if k == "numeric": v = rng.randrange(1, 9); cells.append("%d %d" % (i, v)); e[nm] = float(v)
+                elif k == "string": v = rng.choice(["p", "q"]); cells.append("%d %s" % (i, v)); e[nm] = v
+                else: v = rng.choice(levels[nm]); cells.append("%d %s" % (i, v)); e[nm] = v
+            rows.append("{" + ",".join(cells) + "}"); exp.append(e)
+        lab = rng.choice(names) if rng.random() < 0.5 else None
+        case = dict(lines=header + rows, label=lab)
+        ctx.count("lazy-sparse", repr(case), len(rows) >= 1)
+        try:
+            got_rows = list(ArffReader().filter(iter(header + rows)))
+            if lab is not None: got_rows = list(R.LabelRows(lab, "c").filter(got_rows))
+            for v, e in zip(got_rows, exp):
+                if lab is not None and lab not in e: e = dict(e, **{lab: 0.0})      # an absent numeric label is the zero
+                norm = lambda x: None if x is None else (float(x) if isinstance(x, (int, float)) and not isinstance(x, bool) else str(x))
+                order = ["getitem", "items", "keys", "len", "getitem", "label"]; rng.shuffle(order)
+                for a in order:
+                    if a == "getitem": got = {k: norm(v[k]) for k in e}; want = {k: norm(x) for k, x in e.items()}
+                    elif a == "items": got = {k: norm(x) for k, x in dict(v.items()).items()}; want = {k: norm(x) for k, x in e.items()}
+                    elif a == "keys": got = set(v.keys()); want = set(e)
+                    elif a == "len": got = len(v) >= len([k for k in e if e[k] != "0" or True]) - len([k for k in e if e[k] == "0"]); want = True
+                    else:
+                        if lab is None or lab not in e: continue
+                        got = norm(v.label); want = norm(e[lab])
+                    if got != want:
+                        ctx.fail(["lazy-sparse", "wrong", a], "%s -> %r, the file says %r on %s" % (a, got, want, case), dict(case, order=order)); raise StopIteration
+        except StopIteration: pass
+        except Exception as ex:
+            ctx.fail(["lazy-sparse", "raises", errname(ex)], "lazy sparse row raised %s: %s on %s" % (errname(ex), str(ex)[:100], case), case)
+
 def check_lazy_dense(ctx, n_cases):
     import coba.pipes.rows as R
     rng = ctx.rng
@@ -239,6 +286,7 @@ def run(ctx):
     check_dense(ctx, ctx.n(1500, 20000))
     check_sparse(ctx, ctx.n(500, 6000))
     check_lazy_dense(ctx, ctx.n(500, 6000))
+    check_lazy_sparse(ctx, ctx.n(400, 5000))
 
 def replay(r):
     print(json.dumps(r, indent=1, default=str)[:3000]); return 0
